@@ -40,28 +40,28 @@ theorem runCalls_append (g : Game P M) (cfg : Search.Cfg) (h : History P M) (p :
         | error e => rfl
         | ok z => simp only [List.cons_append]
 
-/-- `eng` is what the history `h` of `Analyze` calls (each with a membership-preserving move order) leaves of an
-engine newly built by `NewMinimax` for `cfg` -/
-def EngAfter (g : Game P M) (cfg : Search.Cfg) (h : History P M) (eng : Eng M) : Prop :=
-  (∀ x ∈ h, OrderOK x.2) ∧ ∃ rs, runCalls g cfg h (Eng.new g cfg) = .ok (rs, eng)
+/-- `eng` is what the history `h` of `Analyze` calls (each with an environment satisfying `Ok`, e.g. a
+membership-preserving move order) leaves of an engine newly built by `NewMinimax` for `cfg` -/
+def EngAfter (Ok : Oracle M → Prop) (g : Game P M) (cfg : Search.Cfg) (h : History P M) (eng : Eng M) : Prop :=
+  (∀ x ∈ h, Ok x.2) ∧ ∃ rs, runCalls g cfg h (Eng.new g cfg) = .ok (rs, eng)
 
 /-- invariant of a cache: a cached engine belongs to the remembered key and is a fresh engine of that key's
 configuration after some history of calls -/
-def CacheInv (env : Env P M) (c : Cache M) : Prop :=
+def CacheInv (Ok : Oracle M → Prop) (env : Env P M) (c : Cache M) : Prop :=
   ∀ pl, c.player = some pl →
     (pl.size : Int) = c.size ∧ pl.cfg = playerCfg env.tableEntries c.depth c.precise ∧
-    ∃ h : History P M, EngAfter (env.game pl.size) pl.cfg h pl.eng
+    ∃ h : History P M, EngAfter Ok (env.game pl.size) pl.cfg h pl.eng
 
-theorem cacheInv_empty (env : Env P M) : CacheInv env ({} : Cache M) := by
+theorem cacheInv_empty (Ok : Oracle M → Prop) (env : Env P M) : CacheInv Ok env ({} : Cache M) := by
   intro pl h; cases h
 
-theorem engAfter_new (g : Game P M) (cfg : Search.Cfg) : EngAfter g cfg [] (Eng.new g cfg) :=
+theorem engAfter_new (Ok : Oracle M → Prop) (g : Game P M) (cfg : Search.Cfg) : EngAfter Ok g cfg [] (Eng.new g cfg) :=
   ⟨fun x hx => (by cases hx), [], rfl⟩
 
 /-- `getPlayer` keeps the invariant; afterwards the key is the requested one -/
-theorem getPlayer_inv (env : Env P M) (c : Cache M) (size : Nat) (depth : Int) (precise : Bool)
-    (hc : CacheInv env c) :
-    CacheInv env (c.getPlayer env size depth precise) ∧
+theorem getPlayer_inv (Ok : Oracle M → Prop) (env : Env P M) (c : Cache M) (size : Nat) (depth : Int) (precise : Bool)
+    (hc : CacheInv Ok env c) :
+    CacheInv Ok env (c.getPlayer env size depth precise) ∧
     (c.getPlayer env size depth precise).size = size ∧
     (c.getPlayer env size depth precise).depth = depth ∧
     (c.getPlayer env size depth precise).precise = precise := by
@@ -72,18 +72,22 @@ theorem getPlayer_inv (env : Env P M) (c : Cache M) (size : Nat) (depth : Int) (
     intro pl hpl
     simp only [Option.some.injEq] at hpl
     subst hpl
-    exact ⟨rfl, rfl, [], engAfter_new _ _⟩
+    exact ⟨rfl, rfl, [], engAfter_new Ok _ _⟩
   · rw [if_neg hk]
     simp only [Bool.or_eq_true, bne_iff_ne, ne_eq, not_or, Decidable.not_not] at hk
     exact ⟨hc, hk.1.1, hk.1.2, hk.2⟩
 
 /-- one `player.Analyze` on the cached engine extends its history by that call -/
-theorem callPlayer_history (env : Env P M) (o : Oracle M) (ho : OrderOK o) (c : Cache M) (p : P)
-    (hc : CacheInv env c) (pv : List M) (v : Int) (c' : Cache M)
+theorem callPlayer_history (Ok : Oracle M → Prop) (env : Env P M) (o : Oracle M) (ho : Ok o) (c : Cache M) (p : P)
+    (hc : CacheInv Ok env c) (pv : List M) (v : Int) (c' : Cache M)
     (hcall : callPlayer env o c p = (.ok (pv, v), c')) :
-    CacheInv env c' ∧ c'.size = c.size ∧ c'.depth = c.depth ∧ c'.precise = c.precise ∧
+    CacheInv Ok env c' ∧ c'.size = c.size ∧ c'.depth = c.depth ∧ c'.precise = c.precise ∧
     (c.size = (env.size p : Int)) ∧
-    ∃ (h : History P M) (rs : List (P × Int)) (eng : Eng M), (∀ x ∈ h, OrderOK x.2) ∧
+    ∃ (h : History P M) (rs : List (P × Int)) (eng eng0 : Eng M) (ms : List M) (st : Stats), (∀ x ∈ h, Ok x.2) ∧
+      runCalls (env.game (env.size p)) (playerCfg env.tableEntries c.depth c.precise) h
+        (Eng.new (env.game (env.size p)) (playerCfg env.tableEntries c.depth c.precise)) = .ok (rs, eng0) ∧
+      Search.analyze (env.game (env.size p)) (playerCfg env.tableEntries c.depth c.precise) o p eng0 =
+        .ok ((pv, v, st), eng) ∧ ms = pv ∧
       runCalls (env.game (env.size p)) (playerCfg env.tableEntries c.depth c.precise) (h ++ [(p, o)])
         (Eng.new (env.game (env.size p)) (playerCfg env.tableEntries c.depth c.precise)) = .ok (rs ++ [(p, v)], eng) := by
   obtain ⟨size, depth, precise, player⟩ := c
@@ -109,17 +113,23 @@ theorem callPlayer_history (env : Env P M) (o : Oracle M) (ho : OrderOK o) (c : 
             .ok (rs ++ [(p, v')], eng') := by
           rw [runCalls_append, hrun]
           simp only [ha]
-        have hord' : ∀ x ∈ h ++ [(p, o)], OrderOK x.2 := by
+        have hord' : ∀ x ∈ h ++ [(p, o)], Ok x.2 := by
           intro x hx
           rcases List.mem_append.mp hx with hx | hx
           · exact hord x hx
           · simp only [List.mem_singleton] at hx; subst hx; exact ho
-        refine ⟨?_, rfl, rfl, rfl, ?_, h, rs, eng', hord, ?_⟩
+        refine ⟨?_, rfl, rfl, rfl, ?_, h, rs, eng', eng, pv', st, hord, ?_, ?_, rfl, ?_⟩
         · intro pl hpl
           simp only [Option.some.injEq] at hpl
           subst hpl
           exact ⟨hsize, hcfg, h ++ [(p, o)], hord', rs ++ [(p, v')], hrun'⟩
         · simp only; rw [← hsize, hsz']
+        · simp only
+          rw [← hcfg, ← hsz']
+          exact hrun
+        · simp only
+          rw [← hcfg, ← hsz']
+          exact ha
         · simp only
           rw [← hcfg, ← hsz']
           exact hrun'
